@@ -337,6 +337,9 @@ func newRig(id string, calls []csmCall, bytesMode bool) (*rig, error) {
 	// a connection-close plugin that reports an error: Close must close the connection nevertheless
 	pc := client.NewPluginContainer()
 	pc.Add(&closeErrPlugin{})
+	// a before-encode plugin that reports an error for some requests: the client ignores the verdict of this
+	// stage (the request is sent all the same), so nothing about those calls may differ
+	pc.Add(&encVerdictPlugin{})
 	r.cl.Plugins = pc
 	r.cl.RegisterServerMessageChan(r.pushCh)
 	for i, c := range calls {
@@ -346,6 +349,17 @@ func newRig(id string, calls []csmCall, bytesMode bool) (*rig, error) {
 		r.byMethod[fmt.Sprintf("%s/m%d", id, i)] = rt
 	}
 	return r, nil
+}
+
+type encVerdictPlugin struct{}
+
+func (encVerdictPlugin) ClientBeforeEncode(m *protocol.Message) error {
+	if k := strings.LastIndex(m.ServiceMethod, "/m"); k >= 0 {
+		if n, err := strconv.Atoi(m.ServiceMethod[k+2:]); err == nil && n%3 == 1 {
+			return errors.New("the before-encode plugin reports an error")
+		}
+	}
+	return nil
 }
 
 type closeErrPlugin struct{}
